@@ -90,6 +90,30 @@ def keep(mid):
     print("kept", dst)
 
 
+def redetect(mid, props):
+    """re-create the mutated worktree from /verif/seeded/<ID>/patch.diff on /repo's HEAD, run detect, remove it"""
+    wt = f"/tmp/mut/{mid}"
+    src = os.path.join(VERIF, "seeded", mid)
+    sh(f"git -C /repo worktree remove --force {wt}")
+    shutil.rmtree(wt, ignore_errors=True)
+    rc, out = sh(f"git -C /repo worktree add --detach {wt} HEAD")
+    assert rc == 0, out
+    try:
+        rc, out = sh(f"git apply {src}/patch.diff", cwd=wt)
+        if rc != 0:
+            rc, out = sh(f"git apply -3 {src}/patch.diff", cwd=wt)
+        if rc != 0:
+            print(mid, "PATCH-DOES-NOT-APPLY", out[-300:])
+            return None
+        os.makedirs(f"{wt}/out", exist_ok=True)
+        res = detect(mid, props)
+        json.dump(res, open(os.path.join(src, "redetect.json"), "w"), indent=1)
+        return res
+    finally:
+        sh(f"git -C /repo worktree remove --force {wt}")
+        sh("git -C /repo worktree prune")
+
+
 if __name__ == "__main__":
     cmd, mid = sys.argv[1], sys.argv[2]
     if cmd == "detect":
@@ -98,3 +122,5 @@ if __name__ == "__main__":
         confirm(mid)
     elif cmd == "keep":
         keep(mid)
+    elif cmd == "redetect":
+        redetect(mid, sys.argv[3:] or [mid[:3]])
